@@ -727,9 +727,11 @@ impl simworld::gated::Gate for IngestGate {
         if method == "begin" {
             self.model.borrow_mut().attempt(me);
         }
-        if method == "prune_entries" {
-            // A pool-level write: SQLite would make it wait for the open write transaction of
-            // another connection. With a single poller that wait could never end, so the harness
+        let tx_bound = matches!(method, "begin" | "commit" | "rollback" | "insert_operation" | "associate" | "set_cursor") || method.ends_with("_tx");
+        if !tx_bound {
+            // A pool-level call: on the single connection of the in-memory pool it would wait for
+            // the open transaction of another activity (on a file database SQLite's locking would
+            // make a write wait). With a single poller that wait could never end, so the harness
             // serialises it here, at a seam, instead.
             while std::cell::RefCell::borrow(&self.model).holder.is_some_and(|h| h != me) {
                 stepexec::gate().await;
